@@ -289,7 +289,8 @@ impl ProfibusPhy for SimPhy {
             std::mem::take(&mut b.buf[self.id])
         };
         let (drop_n, res) = f(&data);
-        let drop_n = drop_n.min(data.len());
+        // like every PHY of the crate: dropping more than is buffered is a contract violation
+        assert!(drop_n <= data.len(), "PHY contract: receive_data closure wants to drop {} bytes but only {} are pending", drop_n, data.len());
         if !data.is_empty() {
             // reference receive path: its buffer is the suffix data[taint..] of the real one (the
             // reference may already have discarded more than the code under test did)
@@ -366,7 +367,7 @@ impl ProfibusPhy for ChunkPhy {
             self.calls += 1;
         }
         let (drop_n, res) = f(&self.buf);
-        let drop_n = drop_n.min(self.buf.len());
+        assert!(drop_n <= self.buf.len(), "PHY contract: receive_data closure wants to drop {} bytes but only {} are pending", drop_n, self.buf.len());
         self.buf.drain(..drop_n);
         self.consumed += drop_n as u64;
         res
